@@ -118,4 +118,336 @@ theorem dirk34_embedded_order1_only :
 /-- meaning of `withinTol` for the first group: `|Σ w − 1| ≤ ε₁`. -/
 example : absQ (sumL sdirk3.b - 1) ≤ (sdirk3_eps.getD 0 []).getD 0 0 := by decide +kernel
 
+/-! ## (c) `newton` (solvers.py:335-361) as a loop with fuel -/
+
+section newton
+variable {V : Type} [Sub V]
+
+/-- **Contract of `newton`.**  If `newton` returns `x` (after `k` updates) then `x` passed
+the convergence test `norm(F(x)) < max(atol, rtol*norm(F(x0)))` — `convOf (G x0) (G x)` —
+and fewer than `maxiter` updates were made.  (`G` is the residual function, `jsolve` the
+linear solve with the possibly frozen Jacobian; both arbitrary.) -/
+theorem newton_contract (G : V → V) (jsolve : V → V → V) (convOf : V → V → Bool)
+    (maxiter freeze : Nat) (x0 x : V) (k : Nat)
+    (h : newton G jsolve convOf maxiter freeze x0 = .converged x k) :
+    convOf (G x0) (G x) = true ∧ k < maxiter :=
+  newton_converged G jsolve convOf maxiter freeze x0 x k h
+
+/-- **`newton` raises only after `maxiter` updates.**  `NoConvergenceError` is raised
+exactly when the loop is exhausted: the reported iterate is the result of `maxiter`
+updates. -/
+theorem newton_raises_after_maxiter (G : V → V) (jsolve : V → V → V) (convOf : V → V → Bool)
+    (maxiter freeze : Nat) (x0 x : V) (k : Nat)
+    (h : newton G jsolve convOf maxiter freeze x0 = .noConvergence x k) : k = maxiter :=
+  newton_noConvergence G jsolve convOf maxiter freeze x0 x k h
+
+/-- **Linear problems need one update.**  If one Newton update from any point `z` (with the
+Jacobian evaluated at any point `xJ`) lands on a zero of `G` — `G` affine, `jsolve` an exact
+solve with its linear part — and a zero residual passes the convergence test, then `newton`
+(with `maxiter ≥ 2`) converges: either immediately at `x0`, or after exactly one update at a
+point with `G x = 0`. -/
+theorem newton_linear_one_update [Zero V] (G : V → V) (jsolve : V → V → V)
+    (convOf : V → V → Bool) (maxiter freeze : Nat) (x0 : V)
+    (hJ : ∀ z xJ, G (z - jsolve xJ (G z)) = 0) (hzero : ∀ r0, convOf r0 0 = true)
+    (hm : 2 ≤ maxiter) :
+    ∃ x k, newton G jsolve convOf maxiter freeze x0 = .converged x k ∧
+      ((k = 0 ∧ x = x0) ∨ (k = 1 ∧ G x = 0)) :=
+  newton_linear G jsolve convOf maxiter freeze x0 hJ hzero hm
+
+end newton
+
+/-- non-vacuity: `2z - 4 = 0` over `ℚ` with the exact Jacobian solve converges to `2` after
+one update; the hypotheses of `newton_linear_one_update` hold for it. -/
+example : newton (fun z : ℚ => 2 * z - 4) (fun _ r => r / 2) (fun _ r => decide (r = 0)) 5 1 0
+    = .converged 2 1 := by
+  norm_num [newton, newtonLoop]
+example : (∀ z xJ : ℚ, (fun z : ℚ => 2 * z - 4) (z - (fun _ r => r / 2) xJ ((fun z : ℚ => 2 * z - 4) z)) = 0)
+    ∧ ∀ r0 : ℚ, (fun (_ r : ℚ) => decide (r = 0)) r0 0 = true :=
+  ⟨fun z _ => by ring, fun _ => by simp⟩
+/-- non-vacuity of `newton_raises_after_maxiter`: a solve that makes no progress. -/
+example : newton (fun z : ℚ => z) (fun _ _ => 0) (fun _ r => decide (r = 0)) 3 1 1
+    = .noConvergence 1 3 := by
+  norm_num [newton, newtonLoop]
+
+/-! ## (b) `dirk_step` (solvers.py:366-435) over an arbitrary field -/
+
+section dirk
+variable {K V : Type} [Field K] [DecidableEq K] [AddCommGroup V] [Module K V]
+
+/-- **Stage equations of `dirk_step`, general (nonlinear) case.**  If the stage loop ran
+`n` stages without exception then it produced `n` stage values `ys` and `n` slopes `Fy`, and
+for every stage `i`:
+* explicit stage (`a_ii = 0`): it is stage 0, `y_0 = x` and `Fy_0 = Fx or F(x)`;
+* implicit stage (`a_ii ≠ 0`): `Fy_i = F(y_i)` and `y_i` satisfies the stage equation
+  `M y_i − τ a_ii F(y_i) − (M x + τ Σ_{j<i} a_ij Fy_j) = ρ` up to a residual `ρ` that passed
+  Newton's convergence test (`convOf r0 ρ`, `r0` the initial residual).
+`M`, `F`, the Jacobian solve `jsolve` and the test `convOf` are arbitrary. -/
+theorem dirk_stage_equations (A : Nat → Nat → K) (M F : V → V) (jsolve : K → V → V → V)
+    (convOf : V → V → Bool) (x : V) (tau : K) (Fx : Option V) (n : Nat) (st : StageState V)
+    (h : dirkStages A M F jsolve convOf x tau Fx n = .ok st) :
+    st.ys.length = n ∧ st.Fy.length = n ∧ ∀ i, i < n →
+      (A i i = 0 → i = 0 ∧ st.ys.getD i 0 = x ∧ st.Fy.getD i 0 = Fx.getD (F x)) ∧
+      (A i i ≠ 0 → st.Fy.getD i 0 = F (st.ys.getD i 0) ∧
+        ∃ r0, convOf r0 (M (st.ys.getD i 0) - (tau * A i i) • F (st.ys.getD i 0)
+          - (M x + tau • sumRange i (fun j => A i j • st.Fy.getD j 0))) = true) :=
+  dirkStages_spec n st h
+
+/-- **Stage equations, exact solves.**  If the convergence test only accepts a zero residual
+(e.g. `F` affine and exact linear algebra) and the caller's `Fx` is `None` or really `F(x)`,
+then every stage satisfies the textbook DIRK stage equation
+`M y_i = M x + τ Σ_{j ≤ i} a_ij F(y_j)` and `Fy_i = F(y_i)`. -/
+theorem dirk_stage_equations_linear (A : Nat → Nat → K) (M F : V → V) (jsolve : K → V → V → V)
+    (convOf : V → V → Bool) (x : V) (tau : K) (Fx : Option V) (n : Nat) (st : StageState V)
+    (hexact : ∀ r0 r, convOf r0 r = true → r = 0) (hFx : Fx = none ∨ Fx = some (F x))
+    (h : dirkStages A M F jsolve convOf x tau Fx n = .ok st) :
+    ∀ i, i < n → st.Fy.getD i 0 = F (st.ys.getD i 0) ∧
+      M (st.ys.getD i 0) = M x + tau • sumRange (i + 1) (fun j => A i j • F (st.ys.getD j 0)) :=
+  dirkStages_linear hexact hFx h
+
+variable (s : Nat) (A : Nat → Nat → K) (b : Nat → K) (bhat : Option (Nat → K))
+  (M Minv F : V → V) (jsolve : K → V → V → V) (convOf : V → V → Bool) (x : V) (tau : K)
+  (Fx : Option V) (o : DirkOut V)
+
+/-- **Update equation.**  Without the stiffly accurate shortcut, and with `Minv` a right
+inverse of `M` (`make_solver(M)`), the new value satisfies
+`M x_new = M x + τ Σ_i b_i Fy_i`, no `F_x_new` is handed on, and the returned stage lists
+are those of the stage loop (so the stage-equation theorems apply to them). -/
+theorem dirk_update_equation
+    (h : dirkStep s A b bhat false M Minv F jsolve convOf x tau Fx = .ok o)
+    (hM : ∀ v, M (Minv v) = v) :
+    M o.xnew = M x + tau • sumRange s (fun i => b i • o.Fy.getD i 0) ∧ o.Fxnew = none ∧
+    dirkStages A M F jsolve convOf x tau Fx s = .ok ⟨o.ys, o.Fy, o.fcalls⟩ :=
+  dirkStep_update h hM
+
+/-- **Stiffly accurate shortcut.**  If `b` equals the last row of `A`, the last stage is
+implicit, solves are exact and `Fx` is consistent, then the shortcut `x_new = ys[s-1]`
+satisfies the update equation of the tableau, `M x_new = M x + τ Σ_i b_i F(y_i)`, and the
+`F_x_new` handed to the next step is really `F(x_new)`. -/
+theorem stiffly_accurate_shortcut
+    (h : dirkStep s A b bhat true M Minv F jsolve convOf x tau Fx = .ok o)
+    (hs : 0 < s) (hb : ∀ j, j < s → b j = A (s - 1) j) (ha : A (s - 1) (s - 1) ≠ 0)
+    (hexact : ∀ r0 r, convOf r0 r = true → r = 0) (hFx : Fx = none ∨ Fx = some (F x)) :
+    M o.xnew = M x + tau • sumRange s (fun i => b i • F (o.ys.getD i 0)) ∧
+    o.Fxnew = some (F o.xnew) :=
+  dirkStep_sa h hs hb ha hexact hFx
+
+/-- **Stiffly accurate shortcut, residual form** (inexact Newton, arbitrary `Fx`): the
+shortcut value satisfies the update equation up to a residual `ρ` that passed Newton's
+convergence test, and `F_x_new = F(x_new)`. -/
+theorem stiffly_accurate_shortcut_residual
+    (h : dirkStep s A b bhat true M Minv F jsolve convOf x tau Fx = .ok o)
+    (hs : 0 < s) (hb : ∀ j, j < s → b j = A (s - 1) j) (ha : A (s - 1) (s - 1) ≠ 0) :
+    (∃ r0 ρ, convOf r0 ρ = true ∧
+      M o.xnew = M x + tau • sumRange s (fun i => b i • o.Fy.getD i 0) + ρ) ∧
+    o.Fxnew = some (F o.xnew) ∧ o.xnew = o.ys.getD (s - 1) 0 :=
+  dirkStep_sa_residual h hs hb ha
+
+/-- **Embedded solution.**  With weights `ŵ` (row `s+1` of the tableau) the estimate
+satisfies `M x_est = M x + τ Σ_i ŵ_i Fy_i` (in either branch); without them there is none. -/
+theorem dirk_embedded_equation (isSA : Bool)
+    (h : dirkStep s A b bhat isSA M Minv F jsolve convOf x tau Fx = .ok o)
+    (hM : ∀ v, M (Minv v) = v) :
+    (∀ w, bhat = some w → ∃ xe, o.xest = some xe ∧
+      M xe = M x + tau • sumRange s (fun i => w i • o.Fy.getD i 0)) ∧
+    (bhat = none → o.xest = none) :=
+  dirkStep_embedded h hM
+
+/-- **Exact integration of `M y' = c`.**  For a constant right-hand side the step gives
+`M x_new = M x + (τ Σ_i b_i) c`, hence `M x_new = M x + τ c` for a consistent tableau
+(`Σ b = 1`): the solution `y(t) = y₀ + t M⁻¹c` is reproduced exactly, whatever the stages,
+the Newton solver and the convergence test do. -/
+theorem const_rhs_exact (c : V)
+    (h : dirkStep s A b bhat false M Minv (fun _ => c) jsolve convOf x tau Fx = .ok o)
+    (hFx : Fx = none ∨ Fx = some c) (hM : ∀ v, M (Minv v) = v) :
+    M o.xnew = M x + (tau * sumRange s b) • c ∧
+    (sumRange s b = 1 → M o.xnew = M x + tau • c) :=
+  dirkStep_const h hFx hM
+
+/-- the same in the stiffly accurate branch (exact solves). -/
+theorem const_rhs_exact_sa (c : V)
+    (h : dirkStep s A b bhat true M Minv (fun _ => c) jsolve convOf x tau Fx = .ok o)
+    (hs : 0 < s) (hb : ∀ j, j < s → b j = A (s - 1) j) (ha : A (s - 1) (s - 1) ≠ 0)
+    (hexact : ∀ r0 r, convOf r0 r = true → r = 0) (hFx : Fx = none ∨ Fx = some c) :
+    M o.xnew = M x + (tau * sumRange s b) • c ∧
+    (sumRange s b = 1 → M o.xnew = M x + tau • c) :=
+  dirkStep_const_sa h hs hb ha hexact hFx
+
+end dirk
+
+/-- trapezoidal-rule tableau used in the examples -/
+private def exA : Nat → Nat → ℚ := fun i j => (([[0, 0], [1/2, 1/2]] : List (List ℚ)).getD i []).getD j 0
+private def exb : Nat → ℚ := fun j => ([1/2, 1/2] : List ℚ).getD j 0
+
+/-- non-vacuity (both branches): `2 y' = 1 - y`, `y(0) = 0`, `τ = ½`, exact Jacobian solve
+`(2 + c)⁻¹`, exact convergence test: the step succeeds with `x_new = 2/9`. -/
+example : ∃ o, dirkStep 2 exA exb (some exb) true (fun v : ℚ => 2 * v) (fun v => v / 2)
+      (fun y => -y + 1) (fun c _ r => r / (2 + c)) (fun _ r => decide (r = 0)) (0 : ℚ) (1/2 : ℚ) none
+      = .ok o ∧ decide (o.xnew = 2/9 ∧ o.ys = [0, 2/9]) = true :=
+  exists_ok_of_okAnd (by decide +kernel)
+example : ∃ o, dirkStep 2 exA exb (some exb) false (fun v : ℚ => 2 * v) (fun v => v / 2)
+      (fun y => -y + 1) (fun c _ r => r / (2 + c)) (fun _ r => decide (r = 0)) (0 : ℚ) (1/2 : ℚ) none
+      = .ok o ∧ decide (o.xnew = 2/9 ∧ o.xest = some (2/9)) = true :=
+  exists_ok_of_okAnd (by decide +kernel)
+example : (∀ j, j < 2 → exb j = exA (2 - 1) j) ∧ exA (2 - 1) (2 - 1) ≠ 0 ∧
+    (∀ r0 r : ℚ, (fun (_ r : ℚ) => decide (r = 0)) r0 r = true → r = 0) ∧
+    (∀ v : ℚ, (fun v : ℚ => 2 * v) ((fun v : ℚ => v / 2) v) = v) ∧ sumRange 2 exb = 1 :=
+  ⟨by decide +kernel, by decide +kernel, fun _ r h => by simpa using h, fun v => by ring,
+   by decide +kernel⟩
+/-- non-vacuity of `const_rhs_exact`: `2 y' = 3`. -/
+example : ∃ o, dirkStep 2 exA exb none false (fun v : ℚ => 2 * v) (fun v => v / 2)
+      (fun _ => 3) (fun _ _ r => r / 2) (fun _ r => decide (r = 0)) (1 : ℚ) (1/2 : ℚ) none
+      = .ok o ∧ decide (o.xnew = 1 + 1/2 * (3/2)) = true :=
+  exists_ok_of_okAnd (by decide +kernel)
+
+/-! ## (b) `rosenbrock_step` (solvers.py:684-707) over an arbitrary field -/
+
+section ros
+variable {K V : Type} [Field K] [AddCommGroup V] [Module K V]
+variable (s : Nat) (A G : Nat → Nat → K) (b : Nat → K) (bhat : Option (Nat → K))
+  (F jac : V → V) (csolve : K → V → V) (x : V) (tau : K)
+
+/-- **Stage equations of `rosenbrock_step`.**  If `csolve (τγ)` inverts `M − τγ J`
+(`γ = Γ₀₀`, `jac = J(x)·`), the `n` stages `k_i` satisfy
+`(M − τγ J) k_i = F(x + τ Σ_{j<i} α_ij k_j) + τ J Σ_{j<i} γ_ij k_j` (the second term absent
+for `i = 0`, as in the code).  `M` only appears through the hypothesis on `csolve`. -/
+theorem rosenbrock_stage_equations (M : V → V) (n : Nat)
+    (hC : ∀ r, M (csolve (tau * G 0 0) r) - (tau * G 0 0) • jac (csolve (tau * G 0 0) r) = r) :
+    (rosStages A G F jac csolve x tau n).length = n ∧ ∀ i, i < n →
+      M ((rosStages A G F jac csolve x tau n).getD i 0)
+          - (tau * G 0 0) • jac ((rosStages A G F jac csolve x tau n).getD i 0)
+        = F (x + tau • sumRange i (fun j => A i j • (rosStages A G F jac csolve x tau n).getD j 0))
+          + (if i > 0 then
+              tau • jac (sumRange i (fun j => G i j • (rosStages A G F jac csolve x tau n).getD j 0))
+             else 0) :=
+  ⟨rosStages_length A G F jac csolve x tau n,
+   fun _ hi => rosStages_equation A G F jac csolve x tau M hC hi⟩
+
+/-- **Update of `rosenbrock_step`:** `x_new = x + τ Σ_i b_i k_i`; the embedded value is
+`x + τ Σ_i ŵ_i k_i` when the tableau has weights `ŵ`, absent otherwise. -/
+theorem rosenbrock_update :
+    (rosStep s A G b bhat F jac csolve x tau).xnew
+      = x + tau • sumRange s (fun i => b i • (rosStages A G F jac csolve x tau s).getD i 0) ∧
+    (∀ w, bhat = some w → (rosStep s A G b bhat F jac csolve x tau).xest
+      = some (x + tau • sumRange s (fun i => w i • (rosStages A G F jac csolve x tau s).getD i 0))) ∧
+    (bhat = none → (rosStep s A G b bhat F jac csolve x tau).xest = none) ∧
+    (rosStep s A G b bhat F jac csolve x tau).ks = rosStages A G F jac csolve x tau s :=
+  ⟨rfl, by rintro w rfl; rfl, by rintro rfl; rfl, rfl⟩
+
+/-- **Consistency of `rosenbrock_step`.**  For `F ≡ c` (so `J = 0`) every stage equals
+`k = csolve (τγ) c`, `x_new = x + (τ Σ b) k`, and `M k = c` whenever `csolve (τγ)` inverts
+`M − τγ·0`: the step is `x + τ (Σ b) M⁻¹ c`, exact for a consistent tableau. -/
+theorem rosenbrock_consistency (c : V) :
+    (∀ i, i < s → (rosStages A G (fun _ => c) (fun _ => 0) csolve x tau s).getD i 0
+      = csolve (tau * G 0 0) c) ∧
+    (rosStep s A G b bhat (fun _ => c) (fun _ => 0) csolve x tau).xnew
+      = x + (tau * sumRange s b) • csolve (tau * G 0 0) c ∧
+    (∀ M : V → V, (∀ r, M (csolve (tau * G 0 0) r)
+        - (tau * G 0 0) • (fun _ : V => (0 : V)) (csolve (tau * G 0 0) r) = r) →
+      M (csolve (tau * G 0 0) c) = c) :=
+  ⟨fun _ hi => rosStages_const A G csolve x tau c hi, rosStep_const A G csolve x tau s b bhat c,
+   fun M hC => by simpa using hC c⟩
+
+end ros
+
+/-- non-vacuity of the hypothesis on `csolve`: `M = 1`, `J = −1`, `τγ = ¼`,
+`csolve c r = r / (1 + c)`; the two-stage step from `x = 1` is a concrete rational. -/
+example : ∀ r : ℚ, (fun v : ℚ => v) ((fun (c r : ℚ) => r / (1 + c)) ((1/2 : ℚ) * (1/2)) r)
+    - ((1/2 : ℚ) * (1/2)) • (fun v : ℚ => -v) ((fun (c r : ℚ) => r / (1 + c)) ((1/2 : ℚ) * (1/2)) r)
+    = r := by
+  intro r
+  rw [smul_eq_mul]
+  ring
+example : (rosStep 2 exA (fun _ _ => (1/2 : ℚ)) exb none (fun y : ℚ => -y) (fun v => -v)
+    (fun c r => r / (1 + c)) (1 : ℚ) (1/2)).xnew = 17/25 := by decide +kernel
+
+/-! ## (c) `_constant_step_method` (solvers.py:437-473) as a loop with fuel -/
+
+section constDriver
+variable {K V : Type} [Ring K]
+
+/-- **Constant-step driver.**  Whatever the stepper does, a returned pair `(times, sols)`
+has equally many entries, at least the initial one and at most `num_iter + 1`, and
+`times[k] = t0 + k·τ` exactly (no accumulated `t += τ`). -/
+theorem constant_driver (step : V → Option V → Except StepErr (V × Option V)) (x0 : V)
+    (tau t0 : K) (n : Nat) (ts : List K) (xs : List V)
+    (h : constDriver step x0 tau t0 n = .ok (ts, xs)) :
+    ts.length = xs.length ∧ 1 ≤ ts.length ∧ ts.length ≤ n + 1 ∧
+      ∀ k, k < ts.length → ts.getD k 0 = t0 + (k : K) * tau :=
+  constDriver_spec step x0 tau t0 n ts xs h
+
+/-- **…and it is complete:** if the stepper never raises, all `num_iter` steps are taken. -/
+theorem constant_driver_complete (step : V → Option V → Except StepErr (V × Option V)) (x0 : V)
+    (tau t0 : K) (n : Nat) (hstep : ∀ x Fx, ∃ r, step x Fx = .ok r) :
+    ∃ ts xs, constDriver step x0 tau t0 n = .ok (ts, xs) ∧ ts.length = n + 1 := by
+  obtain ⟨ts, xs, h1, h2⟩ := constLoop_complete step t0 tau hstep n 0 x0 none [t0] [x0]
+  exact ⟨ts, xs, h1, by simpa [Nat.add_comm] using h2⟩
+
+/-- **Partial results are prefixes.**  A run with fewer iterations `m ≤ n` of a run that
+returned normally also returns normally (it cannot meet an exception the longer run did not
+meet) and its lists are prefixes of the longer run's lists.  In particular the lists returned
+after a `NoConvergenceError` are a prefix of what an unperturbed run would return. -/
+theorem constant_driver_prefix (step : V → Option V → Except StepErr (V × Option V)) (x0 : V)
+    (tau t0 : K) (m n : Nat) (hmn : m ≤ n) (ts : List K) (xs : List V)
+    (h : constDriver step x0 tau t0 n = .ok (ts, xs)) :
+    ∃ ts' xs', constDriver step x0 tau t0 m = .ok (ts', xs') ∧ ts' <+: ts ∧ xs' <+: xs :=
+  constLoop_prefix step t0 tau m n hmn 0 x0 none [t0] [x0] ts xs h
+
+end constDriver
+
+/-- non-vacuity: four steps of size `¼`; and a stepper that raises `NoConvergenceError` at
+the third step returns the partial lists. -/
+example : constDriver (fun (x : ℚ) _ => .ok (x + 1, none)) 0 (1/4 : ℚ) 0 4
+    = .ok ([0, 1/4, 1/2, 3/4, 1], [0, 1, 2, 3, 4]) := by
+  norm_num [constDriver, constLoop]
+example : constDriver (fun (x : ℚ) _ => if x < 2 then .ok (x + 1, none) else .error .noConvergence)
+    0 (1/4 : ℚ) 0 5 = .ok ([0, 1/4, 1/2], [0, 1, 2]) := by
+  norm_num [constDriver, constLoop]
+
+/-! ## (c) `_adaptive_step_method` (solvers.py:475-534) as a loop with fuel -/
+
+section adapt
+variable {K V : Type} [Field K] [LinearOrder K] [IsStrictOrderedRing K]
+
+/-- **Adaptive driver.**  For controller constants `0 < lo ≤ hi`, `0 < half` and a positive
+initial step, any result of the loop (stopped by reaching `t_end` or by the model's fuel)
+satisfies:
+(i) the step size stays positive;
+(ii) as many times as solutions;
+(iii) the times are strictly increasing, start at `t0` and end at the current time `t`;
+(iv) every computed step was accepted iff its scaled error `r ≤ 1`, and the factor applied
+     to `τ` lies in `[lo, hi]` (`[0.2, 5]`);
+(v) exactly the accepted steps were recorded (`len(times) = 1 + #accepted`);
+(vi) if the fuel did not run out, the loop stopped because `t ≥ t_end`.
+The stepper, the error norm `ratio` and the power function `powf` are arbitrary. -/
+theorem adaptive_driver (step : V → K → Option V → Except StepErr (V × V × Option V))
+    (ratio : V → V → V → K) (powf : K → K) (c : Ctl K) (x0 : V) (tau0 tEnd t0 : K) (fuel : Nat)
+    (o : AdaptOut K V)
+    (hlo : 0 < c.lo) (hlh : c.lo ≤ c.hi) (hh : 0 < c.half) (htau : 0 < tau0)
+    (h : adaptDriver step ratio powf c x0 tau0 tEnd t0 fuel = .ok o) :
+    0 < o.tau ∧
+    o.times.length = o.sols.length ∧
+    (o.times.Pairwise (· < ·) ∧ o.times.head? = some t0 ∧ o.times.getLast? = some o.t) ∧
+    (∀ e ∈ o.log, ∀ r acc fac, e = .stepped r acc fac →
+      (acc = true ↔ r ≤ c.one) ∧ c.lo ≤ fac ∧ fac ≤ c.hi) ∧
+    o.times.length = 1 + o.log.countP (fun e => match e with
+      | .stepped _ acc _ => acc
+      | .newtonFailed => false) ∧
+    (o.outOfFuel = false → ¬ o.t < tEnd) := by
+  obtain ⟨inv, hend⟩ := adaptLoop_spec step ratio powf c tEnd t0 hlo hlh hh fuel t0 tau0 x0 none
+    [t0] [x0] [] o h (AdaptInv.init c t0 tau0 x0 htau)
+  refine ⟨inv.tau_pos, inv.len, ⟨inv.sorted, inv.head, inv.last⟩, ?_, ?_, hend⟩
+  · rintro e he r acc fac rfl
+    exact inv.log_ok _ he
+  · exact inv.count
+
+end adapt
+
+/-- non-vacuity: the controller constants of the source, a stepper that always succeeds
+with zero error estimate (`r` is replaced by `1e-15`, factor clamped to `5`): the run
+`t = 0 → ½ → 3` reaches `t_end = 1` with fuel left. -/
+example : ∃ o, adaptDriver (fun (x : ℚ) tau _ => .ok (x + tau, x + tau, none))
+      (fun _ _ _ => 0) (fun _ => 100) ⟨1, 1 / 10 ^ 15, 1 / 5, 5, 1 / 2, 9 / 10⟩ (0 : ℚ) (1 / 2 : ℚ) 1 0 10
+      = .ok o ∧ decide (o.times = [0, 1/2, 3] ∧ o.outOfFuel = false ∧ o.tau = 25/2) = true :=
+  exists_ok_of_okAnd (by decide +kernel)
+
 end Pyiga.Props.C12
